@@ -21,7 +21,8 @@ RULE = ('scenario = pair of mapping runs over one world at bootstrap factor 1: (
         'non-trivial = the two sides used different chunkings and at least one unambiguous cell was compared; '
         'distinct by hash of (world parameters, variant, both configurations)')
 ASSUMPTIONS = ['cells whose arg-max margin along their path is below 1e-9 (ties, all-zero cells) are excluded and counted',
-               'assignments, probabilities and runner-up lists must be equal; correlations within 1e-9']
+               'assignments, probabilities and runner-up lists must be equal; correlations within 1e-9 (2e-5 for 32-bit '
+               'input, whose BLAS rounding depends on the chunk shape)']
 
 
 def gen(rng, tier, idx):
@@ -36,14 +37,32 @@ def gen(rng, tier, idx):
     n_b = {'permute': n, 'subset': max(1, n // 2), 'superset': n + 3, 'duplicate': 2 * n}[kind]
     b = mapfam.draw_side_cfg(rng, a, n_b, same_chunks=False)
     b['rng_seed'] = rng.randrange(2 ** 31)       # at factor 1 the seed must not matter either
-    return {'wp': wp, 'a': a, 'b': b, 'variant': var, 'sched_a': common.draw_sched(rng),
+    # declared-normalised queries with a huge dynamic range between cells (e.g. one cell left in
+    # linear CPM) are valid input as well; so are 32-bit floats
+    norm = {'mode': rng.choice(['raw', 'raw', 'log2CPM', 'log2CPM']), 'dtype': rng.choice(['float64', 'float32']),
+            'outlier_p': rng.choice([0.0, 0.15, 0.3]), 'seed': rng.randrange(2 ** 31)}
+    a['normalization'] = b['normalization'] = norm['mode']
+    a['dtype'] = b['dtype'] = norm['dtype']
+    return {'wp': wp, 'a': a, 'b': b, 'variant': var, 'norm': norm, 'sched_a': common.draw_sched(rng),
             'sched_b': common.draw_sched(rng), 'kcfg': common.draw_kernel_cfg(rng)}
 
 
-def variant_query(W, var):
+def base_query(W, norm):
+    if not norm or norm['mode'] == 'raw':
+        return W.q_X
+    X = model.log2cpm(W.q_X)
+    r = np.random.default_rng(norm['seed'])
+    for i in range(X.shape[0]):
+        if r.random() < norm['outlier_p']:
+            X[i] = X[i] * (10.0 ** r.uniform(3.0, 9.0))
+    return X.astype(norm['dtype']).astype(float)
+
+
+def variant_query(W, var, X=None):
     r = np.random.default_rng(var['seed'])
     n = len(W.q_ids)
-    X, ids = W.q_X, list(W.q_ids)
+    X = W.q_X if X is None else X
+    ids = list(W.q_ids)
     if var['kind'] == 'permute':
         p = r.permutation(n)
         return X[p], [ids[i] for i in p]
@@ -73,8 +92,9 @@ def run(scn, sb):
             res['not_judged']['precondition_not_met'] = 1
             res['nontrivial'] = False
             return res
-        ra = mapfam.run_map(sb, W, scn['a'], dict(scn['sched_a']), tag='A')
-        Xb, ids_b = variant_query(W, scn['variant'])
+        Xa = base_query(W, scn.get('norm'))
+        ra = mapfam.run_map(sb, W, scn['a'], dict(scn['sched_a']), tag='A', query=Xa)
+        Xb, ids_b = variant_query(W, scn['variant'], Xa)
         rb = mapfam.run_map(sb, W, scn['b'], dict(scn['sched_b']), tag='B', query=Xb, q_ids=ids_b)
         common.sched_stats(res, [ra['sched'], rb['sched']])
         if ra['outcome'][0] != 'ok' or rb['outcome'][0] != 'ok':
@@ -87,8 +107,10 @@ def run(scn, sb):
             return res
         A = {r['cell_id']: r for r in ra['blob']['results']}
         B = {r['cell_id']: r for r in rb['blob']['results']}
-        l2 = W.query_log2cpm()
+        l2 = W.query_log2cpm() if (scn.get('norm') or {}).get('mode', 'raw') == 'raw' else Xa
         row = {c: i for i, c in enumerate(W.q_ids)}
+        if (scn.get('norm') or {}).get('mode') == 'log2CPM':
+            res['probes']['declared_normalised_pairs'] = 1
         levels = W.tax.hierarchy
         judged = 0
         for cid, rec_b in B.items():
@@ -98,11 +120,14 @@ def run(scn, sb):
             if src not in A:
                 continue
             res['evaluations'] += 1
-            if mapfam.cell_margin(W, exp, l2[row[src]], W.q_genes, A[src]) < 1e-9:
+            tol = 1e-9 if (scn.get('norm') or {}).get('dtype', 'float64') == 'float64' else 2e-5
+            if mapfam.cell_margin(W, exp, l2[row[src]], W.q_genes, A[src]) < 10 * tol:
                 res['not_judged']['ambiguous_cell'] = res['not_judged'].get('ambiguous_cell', 0) + 1
                 continue
             judged += 1
-            diff = mapfam.compare_records(A[src], rec_b, levels, exact=False)
+            # "up to floating-point rounding": 32-bit input is correlated in 32-bit arithmetic, whose
+            # BLAS blocking (hence rounding) depends on the number of rows in the chunk
+            diff = mapfam.compare_records(A[src], rec_b, levels, exact=False, tol=tol)
             if diff:
                 res['violations'].append({'cls': 'result-depends-on-other-cells',
                                           'detail': 'cell %r (variant %s, as %r): %s; chunking A %r/%r B %r/%r'
